@@ -157,13 +157,15 @@ func (m *Model) Run(inputs Tensors) (Tensors, error) {
 		return nil, err
 	}
 
+	// Parameters (initializers) go first: an initializer that is also listed as a
+	// graph input only supplies the default for that input, the caller may override it.
 	tensors := make(Tensors)
-	for inputName, inputTensor := range inputs {
-		tensors[inputName] = inputTensor
-	}
-
 	for parameterName, parameterTensor := range m.parameters {
 		tensors[parameterName] = parameterTensor
+	}
+
+	for inputName, inputTensor := range inputs {
+		tensors[inputName] = inputTensor
 	}
 
 	for _, n := range m.mp.Graph.GetNode() {
